@@ -430,6 +430,7 @@ struct Closure<'a> {
     ops: Vec<Value>,
     violations: Vec<Value>,
     raised_mcs: bool,
+    lowered_window: bool,
     conn_wake_reported: bool,
     steps: usize,
     abandoned: u32,
@@ -994,6 +995,15 @@ impl<'a> Closure<'a> {
         let mut idle_conn_polls = 0usize;
         let mut max_idle_run = 0usize;
         while self.steps < budget {
+            // once per closure, in a third of the runs: the connection's owner lowers SETTINGS_INITIAL_WINDOW_SIZE while bodies are
+            // being received and released (the configuration of the repaired window stall F1)
+            if !self.lowered_window && self.steps > 25 {
+                self.lowered_window = true;
+                if self.rng.chance(1, 3) && conn_alive(self.d) && self.led.pending_ep_settings.is_empty() && self.led.ep_iw_applied >= 16 {
+                    let n = (self.led.ep_iw_applied / 16).max(1);
+                    self.exec(json!({"op":"set_initial_window","n":n}));
+                }
+            }
             let tasks = self.runnable_tasks();
             let conn = self.conn_runnable();
             let acts = self.peer_actions();
@@ -1149,7 +1159,7 @@ impl<'a> Closure<'a> {
 fn run_closure(d: &mut Driver, closure_seed: u64, budget: usize) -> (Value, Vec<Value>, Vec<Value>) {
     let mut led = Ledger::new(&d.cfg);
     led.observe(d);
-    let mut c = Closure { d, rng: Rng::new(closure_seed), led, tasks: vec![], ops: vec![], violations: vec![], raised_mcs: false, conn_wake_reported: false, steps: 0, abandoned: 0 };
+    let mut c = Closure { d, rng: Rng::new(closure_seed), led, tasks: vec![], ops: vec![], violations: vec![], raised_mcs: false, lowered_window: false, conn_wake_reported: false, steps: 0, abandoned: 0 };
     let verdict = c.run(budget);
     (verdict, c.violations, c.ops)
 }
